@@ -1,6 +1,6 @@
 /- driver commands of the TriangularMesh self-intersection test (Model/MeshIntersect.lean), reached through the `trimesh`
    family: `segfacet` (one entry of segments_intersect_facets, float64 or float32 arithmetic) and `selfint`
-   (get_intersecting_triangles, float32 arithmetic as in the code) -/
+   (get_intersecting_triangles: normalisation by the mesh size in float64, then float32 arithmetic as in the code) -/
 import MagpyVerif.Model.MeshIntersect
 import Driver.KernFam
 
@@ -29,7 +29,7 @@ def segfacet : P String := do
     let q := [planeDist rd t s0, planeDist rd t s1, signedVol rd s0 s1 t.1 t.2.1, signedVol rd s0 s1 t.2.1 t.2.2, signedVol rd s0 s1 t.2.2 t.1]
     pure (b01 (r.getD 0 false) ++ " " ++ " ".intercalate (q.map fun x => toString x.toBits))
 
-/-- `selfint <hasR 0|1> <r> <rfactor> <eps> <nv> <verts…> <nf> <tris…>` → `idx: i j …` then `r=<bits>` (the query radius used) -/
+/-- `selfint <hasR 0|1> <r> <rfactor> <eps> <nv> <verts…> <nf> <tris…>` → `idx: i j …` then `r=<bits>` (the query radius used, in units of the mesh size) -/
 def selfint : P String := do
   let hasR ← nat
   let r ← flt
@@ -41,8 +41,9 @@ def selfint : P String := do
   let ts ← many nf (do pure (← nat, ← nat, ← nat))
   let ro := if hasR == 1 then some r else none
   let res := getIntersectingTriangles rd32 ro rf eps vs ts
-  let facets := gatherFacets (vs.map (V3.map rd32)) ts
-  let rr := match ro with
+  let nv := normaliseVerts ro vs
+  let facets := gatherFacets (nv.2.map (V3.map rd32)) ts
+  let rr := match nv.1 with
     | some r => r
     | none => rd32 (rd32 rf * maxCornerDist rd32 facets)
   pure ("idx:" ++ String.join (res.map fun k => s!" {k}") ++ s!" r={rr.toBits}")
